@@ -100,6 +100,33 @@ def run(ctx):
         else:
             cases.append(mk(eng, which, seqs, k, maxc))
     run_cases(ctx, cases, vm_every=0)
+    # database objects queried repeatedly with DIFFERENT distance functions / radii: an answer must not depend on what the same
+    # object was asked before (SymdelDB fixes max_edits at construction, LookupDB takes it per lookup)
+    from gens import canon_triplets, canon_model
+    from core import call_impl
+    for t in range(10 if ctx.quick else 120):
+        refs = [s for s in repertoire(rng, rng.randint(3, 14)) if len(s) <= 11] or ['CAF', 'CAW']
+        qs = ([s for s in repertoire(rng, rng.randint(1, 6)) if len(s) <= 11] or ['CAF']) + rng.sample(refs, min(2, len(refs)))
+        use_lookupdb = t % 2 == 0
+        k0 = rng.choice([1, 2])
+        db = call_impl(lambda: nn.LookupDB(refs) if use_lookupdb else nn.SymdelDB(refs, k0))
+        if db[0] != 'ok':
+            ctx.violation('property', 'building the database raised %s' % (db,), dict(refs=refs), site='nn.db.build')
+            continue
+        steps = [(rng.randrange(6), rng.choice([1, 2]) if use_lookupdb else k0, rng.choice([None, None, 0, 1, 2, 3, 6])) for _ in range(rng.randint(2, 5))]
+        outs = ctx.oracle.run([('api_brute_cross_custom', [w, kk, None if m is None else Fraction(m), refs, qs]) for w, kk, m in steps])
+        for step, ((w, kk, m), exp) in enumerate(zip(steps, outs)):
+            kw = dict(custom_distance=customs.make(w), max_custom_distance=float('inf') if m is None else m)
+            g = call_impl(lambda: db[1].lookup(qs, max_edits=kk, **kw) if use_lookupdb else db[1].lookup(qs, **kw))
+            ctx.case(nontrivial_key=('db-history', t, step) if exp else None)
+            ctx.count('db_history_' + ('LookupDB' if use_lookupdb else 'SymdelDB'))
+            if g[0] != 'ok' or canon_triplets(g[1]) != canon_model(exp):
+                ctx.violation('property', 'lookup %d on one %s with custom distance "%s", max_edits=%d, max_custom_distance=%s differs from the pairs inside '
+                              'both radii (earlier lookups on the same object: %s)' % (step, 'LookupDB' if use_lookupdb else 'SymdelDB', customs.NAMES[w], kk, m,
+                                                                                   [(customs.NAMES[a], b, c) for a, b, c in steps[:step]]),
+                              dict(refs=refs, queries=qs, steps=[list(x) for x in steps[:step + 1]], got=str(g)[:300]),
+                              site='nn.LookupDB.lookup[custom]' if use_lookupdb else 'nn.SymdelDB.lookup[custom]')
+                break
     import c14_tcrdist
     c14_tcrdist.run(ctx)
     ctx.assumptions += ['custom distances are symmetric with d(x,x) = 0 (stated domain)',
